@@ -271,6 +271,10 @@ def run(ctx):
         if not safe(lambda: same(s1, snap(r2))):
             rep("a second call returns different values after the first result was overwritten in place: the calls share state")
         ctx.case(name + " twice")
+    # ---- history: the same generator calls late in this run and as the first call of a fresh interpreter
+    core.history_check(ctx, "import numpy as np\nfrom koala import example_graphs as eg, voronization as vz, graph_utils as gu, quasicrystals as qc, phase_diagrams as pdg, hamiltonian as ham\nfrom koala.flux_finder import flux_finder as ff\n\ndef _canon(l):\n    parts = [l.vertices.positions.ravel(), l.edges.indices.ravel().astype(float), l.edges.crossing.ravel().astype(float)]\n    return np.concatenate(parts)\ndef _plaq(l):\n    out = []\n    for p in l.plaquettes:\n        out += [float(len(p.edges))] + [float(x) for x in p.edges] + [float(x) for x in p.directions] + [float(x) for x in p.vertices] + [float(x) for x in p.center]\n    return np.array(out)\n_pts = np.random.default_rng(123).uniform(size=(14, 2))\n", ["_canon(eg.honeycomb_lattice(3))", "_canon(eg.hex_square_oct_lattice(2))", "_canon(eg.tri_non_lattice(2))", "_canon(eg.square_lattice(2, 3))",
+                                      "_canon(eg.make_honeycomb(3)[0])", "np.concatenate([np.asarray(x, dtype=float).ravel() for x in eg.make_honeycomb(3)[1:]])",
+                                      "_canon(eg.tile_unit_cell(_pts[:2], np.array([[0, 1], [1, 0]]), np.array([[0, 0], [1, -1]]), [2, 3]))"], label="generator call")
     # ---- model
     outs = core.Driver().run_parallel(reqs)
     for (name, l, col), o in zip(meta, outs):
